@@ -14,7 +14,7 @@ IMPORTS = ('From PM Require Import Lib.Bytes Lib.PyStr Http.Url Http.Chunk Http.
            'Http.Builders Http.Grammar Http.BuildersCases.\nFrom Coq Require Import ZArith.')
 CASE_TYPE = 'bcase'
 CHECK_FN = 'check_case'
-SHARD = 60
+SHARD = 200
 ANCHOR_FILES = ['proxy/common/utils.py', 'proxy/http/parser/parser.py', 'proxy/http/parser/chunk.py', 'proxy/http/responses.py']
 RULE = ('cases = builder arguments (methods, origin/absolute/authority targets, versions, 0-6 headers in any spelling incl. '
         'caller-supplied content-length / connection / user-agent / transfer-encoding, content_type, conn_close, no_ua / no_cl, '
@@ -225,6 +225,36 @@ def h11_message(ptype, raw):
         return dict(ok=False, why='unexpected interim response')
     return r
 
+
+SIZE_LINE = re.compile(rb'([0-9A-Fa-f]+)(;[^\n]*|[ \t]*)')
+FIELD_LINE = re.compile(rb"[-!#$%&'*+.^_`|~0-9A-Za-z]+:[^\x00\n\x0b\x0c\r]*")
+
+def py_dechunk(raw):
+    """RFC 7230 section 4.1 read strictly (CRLF line ends only), written independently of the Coq recogniser:
+    (body, remainder) or None"""
+    pos, body = 0, b''
+    while True:
+        i = raw.find(b'\r\n', pos)
+        if i < 0: return None
+        m = SIZE_LINE.fullmatch(raw[pos:i])
+        if not m: return None
+        n = int(m.group(1), 16)
+        pos = i + 2
+        if n == 0:
+            while True:
+                j = raw.find(b'\r\n', pos)
+                if j < 0: return None
+                line = raw[pos:j]
+                pos = j + 2
+                if line == b'': return body, raw[pos:]
+                if not FIELD_LINE.fullmatch(line): return None
+        if len(raw) < pos + n + 2 or raw[pos + n:pos + n + 2] != b'\r\n': return None
+        body += raw[pos:pos + n]
+        pos += n + 2
+
+
+STATS = dict(wf_both_accept=0, wf_both_reject=0, wf_outside_comparable_domain=0,
+             dechunk_all_accept=0, dechunk_all_reject=0, dechunk_h11_lenient_bare_lf=0, dechunk_h11_limits=0)
 
 def h11_dechunk(stream):
     """reference decoding of a chunked body by h11: (body, remainder) or None"""
@@ -517,7 +547,7 @@ def run_impl(case):
         out['second'] = H.run_parser(case['ptype'], [raw])
         return out
     if k == 'dechunk':
-        return dict(impl=H.run_chunk([case['raw']]), ref=h11_dechunk(case['raw']))
+        return dict(impl=H.run_chunk([case['raw']]), h11=h11_dechunk(case['raw']), ref=py_dechunk(case['raw']))
     if k == 'tochunks':
         try:
             w = ChunkParser.to_chunks(case['body'], case['k'])
@@ -531,7 +561,9 @@ def run_impl(case):
 def wf_term(ptype, raw):
     v = h11_verdict(ptype, raw)
     if v is None:
+        STATS['wf_outside_comparable_domain'] += 1
         return None
+    STATS['wf_both_accept' if v else 'wf_both_reject'] += 1     # "both": the Coq side is compared with v by check_case
     return 'BWf %s %s %s' % (pt(ptype), cbytes(raw), C.coq_bool(v))
 
 def rfc_args_py(kind, a):
@@ -572,8 +604,6 @@ def coq_term(case, out):
             ts.append(wf_term(case['ptype'], out['raw']))
         return ts
     if k == 'dechunk':
-        if re.search(rb'(^|\r\n)[0-9A-Fa-f]{21,}', case['raw']) or FRAMING_TRAILER.search(case['raw']):
-            return None       # h11 limits (20 hex digits; framing fields re-validated in trailers)
         r = out['ref']
         return 'BDechunk %s %s' % (cbytes(case['raw']), 'None' if r is None else '(Some (%s, %s))' % (cbytes(r[0]), cbytes(r[1])))
     if k == 'tochunks':
@@ -731,12 +761,23 @@ def oracle(case, out):
             return 'h11 decodes another body from the message rebuilt after update_body'
         return None
     if k == 'dechunk':
-        ref, imp = out['ref'], out['impl']
+        ref, h, imp = out['ref'], out['h11'], out['impl']
+        raw = case['raw']
+        # the two references (strict RFC reading, h11) must agree, up to h11's documented leniency and limits
+        if ref != h:
+            if re.search(rb'(^|\r\n)[0-9A-Fa-f]{21,}', raw) or FRAMING_TRAILER.search(raw):
+                STATS['dechunk_h11_limits'] += 1
+            elif ref is None and re.search(rb'(?<!\r)\n', raw):
+                STATS['dechunk_h11_lenient_bare_lf'] += 1
+            else:
+                return 'the reference decoders disagree: strict RFC reading %r, h11 %r' % (ref, h)
+        else:
+            STATS['dechunk_all_accept' if ref is not None else 'dechunk_all_reject'] += 1
         if case['meta'] is not None:
             if ref is None:
-                return 'h11 rejects a stream of the generator grammar'
+                return 'the reference rejects a stream of the generator grammar'
             if ref != (case['meta']['body'], case['meta']['tail']):
-                return 'h11 decodes the generated stream differently'
+                return 'the reference decodes the generated stream differently'
         if ref is not None:
             if 'err' in imp:
                 return 'decoder raised %s on a stream the reference accepts' % imp['exc']
@@ -830,7 +871,8 @@ def extra_checks(rng, tier):
             if f:
                 failures.append(dict(case=case, out=out, what=f))
     notes.append('to_chunks/decoder/h11 round trip checked exhaustively for chunk sizes 1..%d x body lengths 0..%d (%d pairs)' % (nmax, nmax, count))
-    return dict(failures=failures[:3], notes=notes, exhaustive_chunk_pairs=count)
+    notes.append('wf_message (Coq) vs h11 and ref_dechunk_bytes (Coq) vs strict reading vs h11: see reference_cross_validation')
+    return dict(failures=failures[:3], notes=notes, exhaustive_chunk_pairs=count, reference_cross_validation=dict(STATS))
 
 
 def debug_mismatches(seed=0, tier='quick', limit=8, kinds=None):
